@@ -854,7 +854,103 @@ where
     }
 }
 
-const N_TYPES: u64 = 17;
+
+// ---------------------------------------------------------------------------------------------
+// Real generated types (conjure-codegen output for sink-ir.json, compiled into this binary):
+// values are obtained by parsing documents built from a small colliding pool of doubles.
+
+const JSON_DOUBLES: &[&str] = &["\"NaN\"", "0.0", "-0.0", "1.0", "-1.0", "\"Infinity\"", "\"-Infinity\"", "1.5", "5e-324", "1.7976931348623157e308"];
+
+fn jd(r: &mut Rng) -> &'static str {
+    JSON_DOUBLES[r.below(JSON_DOUBLES.len())]
+}
+
+fn json_flags(text: &str) -> u8 {
+    let mut f = 0;
+    if text.contains("NaN") {
+        f |= 1;
+    }
+    if text.contains(":0.0") || text.contains("-0.0") || text.contains("[0.0") || text == "0.0" {
+        f |= 2;
+    }
+    if text.contains("Infinity") {
+        f |= 4;
+    }
+    if text.contains("5e-324") {
+        f |= 8;
+    }
+    f
+}
+
+fn item_doc(r: &mut Rng) -> String {
+    let label = *r.pick(&["a", "b"]);
+    if r.chance(1, 4) {
+        format!("{{\"label\":\"{}\"}}", label)
+    } else {
+        format!("{{\"label\":\"{}\",\"weight\":{}}}", label, jd(r))
+    }
+}
+
+macro_rules! generated_val {
+    ($wrapper:ident, $inner:ty, $doc:expr) => {
+        #[derive(Clone, Debug, PartialEq, Eq, PartialOrd, Ord, Hash)]
+        struct $wrapper($inner);
+
+        impl Val for $wrapper {
+            fn gen(r: &mut Rng) -> Self {
+                let doc: String = $doc(r);
+                $wrapper(conjure_serde::json::client_from_str(&doc).unwrap_or_else(|e| panic!("document {}: {}", doc, e)))
+            }
+            fn mutate(&self, r: &mut Rng) -> Self {
+                Self::gen(r)
+            }
+            fn dump(&self, out: &mut String) {
+                out.push_str(&conjure_serde::json::to_string(&self.0).unwrap());
+            }
+            fn top(&self) -> String {
+                let t = conjure_serde::json::to_string(&self.0).unwrap();
+                format!("{}:{}", stringify!($wrapper), t.len().min(40) / 8)
+            }
+            fn flags(&self) -> u8 {
+                json_flags(&conjure_serde::json::to_string(&self.0).unwrap())
+            }
+        }
+    };
+}
+
+generated_val!(GRatio, crate::gen::sink::Ratio, |r: &mut Rng| jd(r).to_string());
+generated_val!(GItem, crate::gen::sink::Item, item_doc);
+generated_val!(GChoice, crate::gen::sink::Choice, |r: &mut Rng| match r.below(5) {
+    0 | 1 => format!("{{\"type\":\"num\",\"num\":{}}}", jd(r)),
+    2 => format!("{{\"type\":\"item\",\"item\":{}}}", item_doc(r)),
+    3 => format!("{{\"type\":\"many\",\"many\":[{}]}}", (0..r.below(3)).map(|i| i.to_string()).collect::<Vec<_>>().join(",")),
+    _ => format!("{{\"type\":\"text\",\"text\":\"{}\"}}", r.pick(&["a", "b"])),
+});
+generated_val!(GPayload, crate::gen::sink::Payload, |r: &mut Rng| {
+    let mut m = vec![
+        "\"name\":\"n\"".to_string(),
+        "\"count\":1".to_string(),
+        format!("\"ratio\":{}", jd(r)),
+        "\"flavor\":\"SOUR\"".to_string(),
+        "\"blob\":\"\"".to_string(),
+        "\"big\":1".to_string(),
+        "\"when\":\"2020-01-01T00:00:00Z\"".to_string(),
+        "\"id\":\"00000000-0000-0000-0000-000000000000\"".to_string(),
+    ];
+    if r.bool() {
+        m.push(format!("\"items\":[{}]", (0..r.below(3)).map(|_| item_doc(r)).collect::<Vec<_>>().join(",")));
+    }
+    if r.bool() {
+        let k = jd(r).trim_matches('"').to_string();
+        m.push(format!("\"byKey\":{{\"{}\":\"v\"}}", k));
+    }
+    if r.chance(1, 3) {
+        m.push(format!("\"nested-thing\":{{\"name\":\"n\",\"count\":1,\"ratio\":{},\"flavor\":\"SOUR\",\"blob\":\"\",\"big\":1,\"when\":\"2020-01-01T00:00:00Z\",\"id\":\"00000000-0000-0000-0000-000000000000\"}}", jd(r)));
+    }
+    format!("{{{}}}", m.join(","))
+});
+
+const N_TYPES: u64 = 21;
 
 fn case(rep: &mut Report, sub: &str, seed: u64) {
     let mut rng = Rng::new(seed);
@@ -895,6 +991,16 @@ fn case(rep: &mut Report, sub: &str, seed: u64) {
     {
         let p = pool::<Uni>(r);
         check_pool(rep, sub, seed, "mimic-union", &p, None);
+    }
+    {
+        let p = pool::<GRatio>(r);
+        check_pool(rep, sub, seed, "generated-alias<double>", &p, None);
+        let p = pool::<GItem>(r);
+        check_pool(rep, sub, seed, "generated-object(optional<double>)", &p, None);
+        let p = pool::<GChoice>(r);
+        check_pool(rep, sub, seed, "generated-union(double,object,list)", &p, None);
+        let p = pool::<GPayload>(r);
+        check_pool(rep, sub, seed, "generated-object(double,map<double,_>,list<object>,recursive)", &p, None);
     }
 }
 
